@@ -8,6 +8,9 @@ From Coq Require Import ZArith List.
 From Pnc Require Import Proofs_Access.
 From Pnc Require Import Proofs_RoundTrip.
 From Pnc Require Import Proofs_Exec.
+From Pnc Require Import CSub.
+From Pnc Require Import Gen_contig.
+From Pnc Require Import Proofs_GenContig.
 Set Printing Width 100.
 Set Printing Depth 100000.
 
@@ -390,3 +393,19 @@ Theorem C01_exec_coll_put_same_then_get :
                   (Base.zrange 0 (Exec.nelems_of r)) ++ Exec.guard_bytes) :: nil)).
 Proof. exact @coll_put_same_then_get. Qed.
 Print Assumptions C01_exec_coll_put_same_then_get.
+
+(* the C function is_request_contiguous (ncmpio_filetype.c as built on this run, translated to Gen_contig.v by tools/tr_cfun.py) answers exactly as the hand-written Access.is_contig, without undefined behaviour *)
+Theorem C01_gen_is_contig_eq :
+  forall (isr nrv : Z) (shape count : list Z) (pstart : c_ptr Z),
+         length count = length shape ->
+         (Base.Zlen shape <= 2147483647)%Z ->
+         is_request_contiguous_c isr nrv (Base.Zlen shape) (Some (shape, 0%Z)) pstart
+           (Some (count, 0%Z)) = FVal (b2z (Access.is_contig (z2b isr) nrv shape count)).
+Proof. exact @gen_is_contig_eq. Qed.
+Print Assumptions C01_gen_is_contig_eq.
+
+(* the translator met no construct outside its subset *)
+Theorem C01_gen_contig_subset_complete :
+  tr_cfun_unsupported = nil.
+Proof. exact @gen_contig_subset_complete. Qed.
+Print Assumptions C01_gen_contig_subset_complete.
